@@ -219,7 +219,8 @@ class Property(css_parser.util.Base):
         wellformed, expected = self._parse(expected='name',
                                            seq=newseq,
                                            tokenizer=self._tokenize2(name),
-                                           productions={'IDENT': _ident})
+                                           productions={'IDENT': _ident},
+                                           new=new)
         wellformed = wellformed and new['wellformed']
 
         # post conditions
@@ -362,7 +363,8 @@ class Property(css_parser.util.Base):
                                            seq=newseq,
                                            tokenizer=self._tokenize2(priority),
                                            productions={'CHAR': _char,
-                                                        'IDENT': _ident})
+                                                        'IDENT': _ident},
+                                           new=new)
         wellformed = wellformed and new['wellformed']
 
         # post conditions
